@@ -159,15 +159,33 @@ def _sorted_by(df: fv.SymDF, col: str) -> bool:
 
 
 def tail_vcs() -> List[core.VC]:
-    f = extract.get_function(CA, "CommunicationAnalysis.get_comm_comp_overlap")
-    src = ast.unparse(extract.stripped(f)).replace("'", '"')
-    want = ['result["comp_comm_overlap_ratio"].append(get_comm_comp_overlap_value(trace_df))',
-            'result_df["comp_comm_overlap_pctg"] = round(100 * result_df["comp_comm_overlap_ratio"], 2)',
-            'return result_df[["rank", "comp_comm_overlap_pctg"]]', 'result["rank"].append(rank)', 'for rank, trace_df in t.traces.items():']
-    lines = {l.strip() for l in src.splitlines()}
-    missing = [w for w in want if w not in lines]
-    return [core.VC(f"{PROP}.get_comm_comp_overlap.tail", [], z3.BoolVal(not missing), "vc", [f.fq], {},
-                    note="per rank: value = round(100 * ratio, 2); statements missing/changed: " + "; ".join(missing))]
+    """get_comm_comp_overlap around the per-rank value: the loop body executed for an arbitrary iteration (each list receives
+    this rank's value once) and the statements after the loop executed relationally (reported cell = round(100 * ratio, 2) of
+    its row, rank passed through, one row per rank). See contracts/collect_contract.py."""
+    from contracts import collect_contract as cc
+
+    fn = "CommunicationAnalysis.get_comm_comp_overlap"
+    name = f"{PROP}.get_comm_comp_overlap"
+    f, rank, _frame, parts, appends, _ex = cc.loop_appends(CA, fn, "get_comm_comp_overlap_value", 1)
+    fq = [f.fq]
+    ok, why = cc.appends_ok(appends, {"rank": rank, "comp_comm_overlap_ratio": parts[0]})
+    vcs = [core.VC(f"{name}.loop", [], z3.BoolVal(ok), "vc", fq, {}, note="per iteration: " + why)]
+    cols = {"rank": (z3.IntSort(), False, "int"), "comp_comm_overlap_ratio": (z3.RealSort(), False, "float")}
+    _f, ex, df, pres0, cols0, out, round_fn = cc.run_tail(CA, fn, cols, f"{name}.tail")
+    vcs += [core.VC(pv.name, pv.hyps, pv.goal, "vc", fq, {}, note=pv.note) for pv in ex.vcs]
+    r = df.uni.skolem("r")
+    facts = [to_z3(x) for x in ex.facts]
+    hyp = facts + [to_z3(pres0(r))]
+    vcs.append(core.VC(f"{name}.tail.rows", facts, to_z3(out.present(r)) == to_z3(pres0(r)), "vc", fq, {"row": r[0]}, note="one row per rank: none added, none lost"))
+    have = all(c in out.cols for c in ("rank", "comp_comm_overlap_pctg"))
+    vcs.append(core.VC(f"{name}.tail.columns", [], z3.BoolVal(have), "vc", fq, {}, note=f"reported columns {list(out.cols)}"))
+    if have:
+        ratio = to_z3(cols0["comp_comm_overlap_ratio"].val(r))
+        vcs.append(core.VC(f"{name}.tail.rank", hyp, to_z3(out.cols["rank"].val(r)) == to_z3(cols0["rank"].val(r)), "vc", fq, {"row": r[0]}, note="rank reported as collected"))
+        vcs.append(core.VC(f"{name}.tail.pctg", hyp, to_z3(out.cols["comp_comm_overlap_pctg"].val(r)) == round_fn(100 * ratio, 2), "vc", fq,
+                           {"row": r[0], "ratio": ratio, "reported": to_z3(out.cols["comp_comm_overlap_pctg"].val(r))}, note="comp_comm_overlap_pctg = round(100 * this rank's ratio, 2)"))
+    vcs.append(core.VC(f"{name}.tail.vacuity", hyp, z3.BoolVal(False), "vacuity", fq, {}))
+    return vcs
 
 
 # ---------------------------------------------------------------------------------------------- bounded
